@@ -94,6 +94,11 @@ add("C16", "exploration",
     COMMON_NOTE + "Strings may share memory with other strings (the Go runtime interns 1-byte strings); only mutable ranges are required to be disjoint.",
     "bounded-exhaustive enumeration of decode histories per allocator size class with aliasing oracle (address sweep + mutation)", "E6+E4", "5/C16")
 
+add("C14", "model_checking",
+    "Stateless model checking of the real code under a cooperative scheduler: thread bodies run create/use/release cycles (twice, so pooled objects and buffers are re-acquired) of every pooled type with payloads stamped by thread id; scheduling points sit before every sync.Pool Get/Put, every buffer-pool Malloc/Free, the span allocator's try-lock and every source/sink IO; ALL schedules with <= 2 (thorough 3) preemptions are enumerated for 19 two- and three-thread scenarios, with 'the pool lost its items at this Get' as an extra deviation. Oracle per execution: every result equals the value the body knows must come back, each thread's observation log equals its solo log, buffer-pool ownership audit, pooled objects are neither used (trap) nor written (snapshot) after Put. Complement (sampling, declared): a free-running -race pass of equivalent bodies on the un-shimmed build plus concurrent Get on shared maps; read-only-ness of Get is established by C07's state-digest oracle.",
+    COMMON_NOTE + "Scheduling points are at synchronisation operations only; unsynchronised accesses between them are left to the -race complement, which is sampling and only ever adds data-race/self-check reports. Memory model: sequential consistency.",
+    "stateless model checking under a controlled scheduler with iterative preemption bounding (hand-written explorer), plus a declared free-running race-detector complement", "E3+E4", "5/C14")
+
 NOT_YET = {}
 
 def main():
